@@ -1,7 +1,7 @@
 (* Model/C01Harness.v — Z instances of the C01 conversions and boolean comparers for the generated cases. *)
 From Coq Require Import List ZArith Bool Arith.
 From PV Require Import Base.Index Base.Perm Base.Sum Np.Array Model.Sparse Model.Repr Model.Harness Model.C07Ops
-  Model.C07Harness Model.C01Conv.
+  Model.C07Harness Model.C01Conv Model.C01Ttm.
 Import ListNotations.
 
 Definition zto_tenmat := to_tenmat_req 0%Z.
@@ -62,9 +62,11 @@ Definition kfull_ok (K : ktensor Z) (o : option (dense Z)) : bool :=
   | _, _ => false
   end.
 Definition zt_full := ttensor_full 0%Z Z.add Z.mul.
+(* pyttb's own route: tensor.ttm (permute / reshape / matmul) mode by mode — Model/C01Ttm.v over Model/C02Dense.v *)
+Definition zt_full_impl := C01Ttm.ttensor_full_impl 0%Z Z.add Z.mul.
 Definition tfull_ok (T : ttensor Z) (o : option (dense Z)) : bool :=
   match o with
-  | Some d => den_matches (tshape T) (zden_t T) d && dense_eqb (zt_full T) d
+  | Some d => den_matches (tshape T) (zden_t T) d && dense_eqb (zt_full T) d && dense_eqb (zt_full_impl T) d
   | None => false
   end.
 Definition zpart_den := part_den 0%Z 1%Z Z.add Z.mul.
